@@ -103,6 +103,12 @@ func (c *Case) Cleanup(fn func()) { c.cleanup = append(c.cleanup, fn) }
 // the case fails.
 func (c *Case) Failf(sig string, format string, a ...any) {
 	msg := fmt.Sprintf(format, a...)
+	if resourceTrouble(msg) {
+		// The sandbox ran out of something (ports, descriptors, disk, memory). That
+		// says nothing about the property: the case is abandoned and counted.
+		c.st.known("environment/resource-exhausted", msg)
+		panic(knownAbort{"environment/resource-exhausted"})
+	}
 	if isKnown(sig) {
 		c.st.known(sig, msg)
 		panic(knownAbort{sig})
@@ -115,6 +121,15 @@ func (c *Case) Failf(sig string, format string, a ...any) {
 		c.tt.Fatalf("[%s] %s", sig, msg)
 	}
 	panic("unreachable")
+}
+
+func resourceTrouble(msg string) bool {
+	for _, pat := range []string{"address already in use", "too many open files", "no space left on device", "cannot allocate memory", "cannot assign requested address", "resource temporarily unavailable"} {
+		if strings.Contains(msg, pat) {
+			return true
+		}
+	}
+	return false
 }
 
 // Skip abandons the case as invalid (rapid will generate another one).
